@@ -419,3 +419,14 @@ extern "C" int vf_main_cases(int argc,char**argv,long ncases,void(*scenario)(lon
 }
 // in-process mode: vf_fail must stop the worker
 extern "C" void vf_ip_fail(const char*b){ IP->viol=1; strncpy(IP->msg,b,511); strncpy(IP->voutcome,ipres.outcome,2047); _exit(3); }
+
+// ================================================================== custom explicit-state searches (harness-owned BFS)
+extern "C" int vf_main_custom(int argc,char**argv,void(*search)(struct vf_custom_result*)){
+  parse_args(argc,argv); setvbuf(stdout,0,_IOLBF,0); double t0=now_s(); vf_custom_result r; memset(&r,0,sizeof r); r.depth=O.bound; r.exhaustive=1;
+  search(&r); double wall=now_s()-t0; std::string replaypath;
+  printf("SUMMARY tag=%s mode=custom depth=%d states=%ld transitions=%ld executions=%ld distinct_outcomes=%ld violations=%d wall=%.2fs\n",O.tag.c_str(),O.bound,r.states,r.transitions,r.executions,r.distinct,r.violation[0]?1:0,wall);
+  if(r.violation[0]){ printf("FOUND violation: %s\n  trace: %s\n",r.violation,r.trace); std::string cmd="mkdir -p "+O.replaydir; if(system(cmd.c_str())){} replaypath=O.replaydir+"/"+O.tag+".vfr"; FILE*f=fopen(replaypath.c_str(),"w"); if(f){ fprintf(f,"# explicit-state search counterexample\nbinary=%s\nargs=",argv[0]); for(int a=1;a<argc;a++){ std::string s=argv[a]; if(s=="-json"||s=="-deadline"||s=="-j"||s=="-tag"||s=="-replaydir"||s=="-n"||s=="-known"){ a++; continue;} fprintf(f,"'%s' ",argv[a]); } fprintf(f,"\nschedule=0:0\nstatus=violation\nmessage=%s\ntrace=%s\n",r.violation,r.trace); fclose(f);} }
+  if(!O.json.empty()){ FILE*f=fopen(O.json.c_str(),"w"); if(f){ fprintf(f,"{\"tag\":\"%s\",\"mode\":\"custom\",\"bound\":%d,\"completed_bound\":%d,\"exhaustive\":%s,\"executions\":%ld,\"pruned\":0,\"violations\":%d,\"known\":0,\"horizon_unresolved\":0,\"slow_executions\":0,\"distinct_outcomes\":%ld,\"distinct_conflict_outcomes\":%ld,\"conflict_executions\":%ld,\"states\":%ld,\"transitions\":%ld,\"choice_points\":%ld,\"wall_s\":%.3f,\"fp_pruning\":false,\"engine_error\":false,\"engine_msg\":\"\",\"replay\":\"%s\",\"violation_msgs\":[",
+      O.tag.c_str(),O.bound,r.violation[0]?-1:O.bound,(r.exhaustive&&!r.violation[0])?"true":"false",r.executions,r.violation[0]?1:0,r.distinct,r.distinct,r.executions,r.states,r.transitions,r.transitions,wall,jesc(replaypath).c_str());
+      if(r.violation[0]) fprintf(f,"\"violation: %s | trace: %s\"",jesc(r.violation).c_str(),jesc(r.trace).c_str()); fprintf(f,"],\"known_msgs\":{},\"outcomes\":[],\"samples\":["); for(int i=0;i<r.nsamples;i++) fprintf(f,"%s\"%s\"",i?",":"",jesc(r.samples[i]).c_str()); fprintf(f,"]}\n"); fclose(f);} }
+  return r.violation[0]?1:0; }
